@@ -851,4 +851,212 @@ Proof.
     + apply J1. reflexivity.
 Qed.
 
+
+(* ---------------------------------------------------------------- updates that only grow Uncertain / the masks *)
+Lemma ne0_mem_exists s : s <> 0 -> exists i, mem i s = true.
+Proof.
+  intros H. destruct s as [|p]; [congruence|]. exists (N.log2 (N.pos p)). unfold mem. apply N.bit_log2. discriminate.
+Qed.
+
+Lemma is0_mono a b : (forall i, mem i a = true -> mem i b = true) -> is0 b = true -> is0 a = true.
+Proof.
+  intros H Hb. apply is0_true in Hb. subst. destruct (is0 a) eqn:E; [reflexivity|].
+  apply is0_false in E. destruct (ne0_mem_exists a E) as (i & Hi). apply H in Hi. rewrite mem_0 in Hi. discriminate.
+Qed.
+
+Lemma sinv_update st st' :
+  hist st' = hist st -> next st' = next st -> jtag st' = jtag st -> jimp st' = jimp st ->
+  Forall2 (grow1 (next st)) (tags st) (tags st') ->
+  (forall i, mem i (m_upd st) = true -> mem i (m_upd st') = true) ->
+  (forall i, mem i (m_rst st) = true -> mem i (m_rst st') = true) ->
+  (forall i, mem i (m_add st) = true -> mem i (m_add st') = true) ->
+  Sinv st -> Sinv st'.
+Proof.
+  intros F1 F2 F3 F4 GR MU MR MA (HI & Hn & So & Ra & Ji & Im).
+  unfold Sinv, jinv, impjob6. rewrite F1, F2, F3, F4.
+  split; [eapply inv_grow; eassumption|split; [exact Hn|split; [eapply sorted_same; [eapply grow_same; exact GR|exact So]|
+    split; [eapply ranked_same; [eapply grow_same; exact GR|exact Ra]|split; [|exact Im]]]]].
+  intros j Hj. destruct (Ji j Hj) as (rs & h0 & E & L & EF & D & J3 & J2 & J1).
+  exists rs, h0. split; [exact E|split; [exact L|split; [|split; [|split; [|split; [exact J2|exact J1]]]]]].
+  - intros x Hx i. destruct (EF x Hx i) as (A & B & C). repeat split; auto.
+  - intros NE. specialize (D NE). unfold dirty_of in *. apply negb_true_iff in D. apply negb_true_iff.
+    apply andb_false_iff in D. apply andb_false_iff. destruct D as [D|D].
+    + left. apply andb_false_iff in D. apply andb_false_iff. destruct D as [D|D]; [left|right];
+        (destruct (is0 _) eqn:E0 in |- *; [|reflexivity]); [rewrite (is0_mono _ _ MU E0) in D|rewrite (is0_mono _ _ MR E0) in D]; discriminate.
+    + right. destruct (is0 (m_add st')) eqn:E0; [|reflexivity]. rewrite (is0_mono _ _ MA E0) in D. discriminate.
+  - intros id G Hlt. apply MA. apply J3; assumption.
+Qed.
+
+(* converter attach / detach touch only the converter list of a tag *)
+Lemma grow_tset_conv nx n t t' ts :
+  sorted ts -> tget n ts = Some t -> t_def t' = t_def t -> t_m t' = t_m t -> t_u t' = t_u t -> t_live t' = true ->
+  Forall2 (grow1 nx) ts (tset n t' ts).
+Proof.
+  intros So Tn E1 E2 E3 E4. apply Forall2_tset; [intros; repeat split; auto|].
+  intros k0 t0 I E. subst k0. destruct (tget_In _ _ _ Tn) as (In_n & Ln).
+  assert (t0 = t) as -> by (eapply sorted_unique; eassumption).
+  unfold grow1, same1; simpl. repeat split; try congruence.
+Qed.
+
+Definition tagsonly (st st' : state) : Prop :=
+  hist st' = hist st /\ next st' = next st /\ jtag st' = jtag st /\ jimp st' = jimp st /\
+  m_upd st' = m_upd st /\ m_rst st' = m_rst st /\ m_add st' = m_add st /\
+  (sorted (tags st) -> Forall2 (grow1 (next st)) (tags st) (tags st')).
+
+Lemma sinv_tagsonly st st' : tagsonly st st' -> Sinv st -> Sinv st'.
+Proof.
+  intros (F1 & F2 & F3 & F4 & F5 & F6 & F7 & G) HS. pose proof HS as (_ & _ & So & _).
+  apply (sinv_update st st'); auto; intros i; rewrite ?F5, ?F6, ?F7; auto.
+Qed.
+
+Lemma detach_tagsonly st n c : tagsonly st (detach st n c).
+Proof.
+  unfold detach. destruct (tget n (tags st)) as [t|] eqn:Tn; [|repeat split; intros; apply grow_refl].
+  match goal with |- context[if ?b then _ else _] => destruct b end; repeat split; simpl;
+    intros So; apply (grow_tset_conv _ n t); auto.
+Qed.
+
+Lemma attach_tagsonly st n c st' : attach st n c = Some st' -> tagsonly st st'.
+Proof.
+  unfold attach. destruct (tget n (tags st)) as [t|] eqn:Tn; [|intros E; inversion E; repeat split; intros; apply grow_refl].
+  destruct (tag_has_conv c t); [intros E; inversion E; repeat split; intros; apply grow_refl|].
+  destruct (complex (t_def t)); [discriminate|]. intros E; inversion E; subst. repeat split; simpl.
+  intros So; apply (grow_tset_conv _ n t); auto.
+Qed.
+
+Lemma sinv_detach st n c : Sinv st -> Sinv (detach st n c).
+Proof. apply sinv_tagsonly, detach_tagsonly. Qed.
+
+Lemma sinv_fold (f : state -> N -> state) l :
+  (forall s c, Sinv s -> Sinv (f s c)) -> forall st, Sinv st -> Sinv (fold_left f l st).
+Proof. intros Hf. induction l; simpl; auto. Qed.
+
+Lemma sinv_attach_all cs : forall st n, Sinv st -> Sinv (fst (attach_all st n cs)).
+Proof.
+  induction cs; simpl; intros; auto.
+  destruct (memN a (convs st)); [|exact H].
+  destruct (attach st n a) eqn:E; [|exact H].
+  apply IHcs. eapply sinv_tagsonly; [eapply attach_tagsonly; exact E|exact H].
+Qed.
+
+
+(* ---------------------------------------------------------------- C06: the step theorem *)
+Definition act_ok6 (st : state) (a : action) : Prop :=
+  match a with
+  | ABodyImport r => iresp_ok6 (next st) r
+  | ABodyTag table =>
+    forall j rs h0, jtag st = Some j -> hist st = rs ++ h0 -> length h0 = tj_hist j ->
+    forall id, mem id (lookupN (tj_name j) table) = truth h0 (tj_def j) (rho_snap (tj_snap j)) id
+  | _ => True
+  end.
+
+Definition repaired_c06 (k : kf) : Prop := kf_inherit k = false /\ kf_idonly k = false.
+
+(* API calls on the tag set itself are covered by separate lemmas below *)
+Definition job_or_import (a : action) : Prop :=
+  match a with
+  | AAddTag _ _ _ | ADelTag _ | AQuery _ _ | AMarkAdd _ _ _ | AMarkDel _ _ _ => False
+  | _ => True
+  end.
+
+Lemma sinv_nojob st st' :
+  tags st' = tags st -> hist st' = hist st -> next st' = next st -> jtag st' = None -> jimp st' = jimp st ->
+  Sinv st -> Sinv st'.
+Proof.
+  intros F1 F2 F3 F4 F5 (HI & Hn & So & Ra & Ji & Im). unfold Sinv, jinv, impjob6. rewrite F1, F2, F3, F4, F5.
+  split; [exact HI|split; [exact Hn|split; [exact So|split; [exact Ra|split; [discriminate|exact Im]]]]].
+Qed.
+
+Lemma sinv_starts p st : Sinv st -> Sinv (start_merge (start_converter (start_tagging p st))).
+Proof. intros. apply sinv_start_merge, sinv_start_converter, sinv_start_tagging. assumption. Qed.
+
+Lemma sinv_jimp st j : (forall n r, j = Some (mkImp n (Some r)) -> iresp_ok6 (next st) r) -> Sinv st -> Sinv (set_jimp st j).
+Proof.
+  intros Hj (HI & Hn & So & Ra & Ji & Im).
+  split; [exact HI|split; [exact Hn|split; [exact So|split; [exact Ra|split; [exact Ji|]]]]].
+  intros n r E. simpl in E. apply (Hj n r E).
+Qed.
+
+Theorem sinv_step_jobs k p a st :
+  repaired_c06 k -> job_or_import a -> act_ok6 st a -> Sinv st -> Sinv (step k p a st).
+Proof.
+  intros (Ki & Kd) Hc Hok H. destruct a; try (destruct Hc; fail).
+  - (* AImport *) simpl. destruct files; [exact H|].
+    match goal with |- context[if ?b then _ else _] => destruct b end.
+    + apply sinv_jimp; [intros n0 r0 E; discriminate|]. apply (sinv_fields st); [repeat split|exact H].
+    + apply (sinv_fields st); [repeat split|exact H].
+  - (* ASetConv *) simpl. destruct (tget n (tags st)); [|exact H].
+    match goal with |- context[if ?b then _ else _] => destruct b end; [|exact H].
+    match goal with |- context[attach_all ?s ?n ?cs] =>
+      assert (Sinv (fst (attach_all s n cs))) as HA; [|destruct (attach_all s n cs) as [s2 ok]; simpl in HA] end.
+    { apply sinv_attach_all. apply sinv_fold; [|exact H].
+      intros s c Hs. destruct (memN c cs); [exact Hs|apply sinv_detach; exact Hs]. }
+    destruct ok; [apply sinv_start_converter; exact HA|exact HA].
+  - (* ABodyImport *) simpl. destruct (jimp st) as [j|] eqn:J; [|exact H].
+    destruct (ij_resp j); [exact H|].
+    apply sinv_jimp; [|exact H]. intros n0 r0 E. inversion E; subst. exact Hok.
+  - (* ABodyTag *) simpl. destruct (jtag st) as [j|] eqn:J; [|exact H]. destruct (tj_res j) eqn:ER; [exact H|].
+    destruct H as (HI & Hn & So & Ra & Ji & Im).
+    split; [exact HI|split; [exact Hn|split; [exact So|split; [exact Ra|split; [|exact Im]]]]].
+    intros j' Hj'. simpl in Hj'. inversion Hj'; subst; clear Hj'. simpl.
+    destruct (Ji j J) as (rs & h0 & E & L & EF & D & J3 & J2 & J1).
+    exists rs, h0. split; [exact E|split; [exact L|split; [exact EF|split; [exact D|split; [exact J3|split; [exact J2|]]]]]].
+    intros res Hres id. inversion Hres; subst; clear Hres.
+    rewrite mem_union, mem_diff, mem_inter. rewrite (Hok j rs h0 J E L id).
+    destruct (mem id (tj_u j)); simpl; [rewrite andb_false_r; reflexivity|rewrite andb_true_r; apply orb_false_r].
+  - (* ABodyConvert *) simpl. destruct (jconv st) as [j|]; [|exact H]. destruct (cj_done j); [exact H|].
+    apply (sinv_fields st); [repeat split|exact H].
+  - (* ABodyMerge *) simpl. destruct (jmerge st) as [j|]; [|exact H]. destruct (mj_res j); [exact H|].
+    apply (sinv_fields st); [repeat split|exact H].
+  - (* AComplete *) destruct k0.
+    + (* import *) simpl. destruct (jimp st) as [[nf [r|]]|] eqn:J; try exact H.
+      apply sinv_starts.
+      assert (forall st1, Sinv st1 -> jimp st1 = None ->
+        Sinv (match skipn (ir_proc r) (queue st1) with
+              | [] => set_queue st1 (skipn (ir_proc r) (queue st1))
+              | _ :: _ => set_jimp (set_queue st1 (skipn (ir_proc r) (queue st1)))
+                                   (Some (mkImp (length (skipn (ir_proc r) (queue st1))) None)) end)) as HQ.
+      { intros st1 H1 J1. destruct (skipn (ir_proc r) (queue st1)) eqn:E.
+        - apply (sinv_fields st1); [repeat split|exact H1].
+        - apply sinv_jimp; [intros; discriminate|]. apply (sinv_fields st1); [repeat split|exact H1]. }
+      pose proof H as (_ & _ & _ & _ & _ & Im). pose proof (Im _ _ J) as R.
+      destruct (ir_idx r) eqn:EI.
+      * apply HQ; [|reflexivity]. apply sinv_jimp; [intros; discriminate|exact H].
+      * apply HQ; [|reflexivity]. eapply sinv_fields; [|apply (sinv_import_core k st r); [exact Kd|exact H|exact R|rewrite EI; discriminate]].
+        repeat split.
+    + (* tag *) simpl. destruct (jtag st) as [[n d m0 u0 cv snap hh [res|]]|] eqn:J; try exact H.
+      apply sinv_starts. simpl.
+      destruct (tget n (tags st)) as [ot|] eqn:Tn; [|apply (sinv_nojob st); auto].
+      destruct (defn_eqb (t_def ot) d) eqn:ED; [|apply (sinv_nojob st); auto].
+      apply defn_eqb_eq in ED. subst d. rewrite Ki.
+      eapply (sinv_tag_publish k st n ot m0 u0 cv snap hh res Kd H J Tn); reflexivity.
+    + (* convert *) simpl. destruct (jconv st) as [[sets v nx [|]]|]; try exact H.
+      assert (forall s, Sinv s -> Sinv (if kf_mergeconv k then start_converter (start_tagging p s)
+                                         else start_merge (start_converter (start_tagging p s)))) as HS.
+      { intros s Hs. destruct (kf_mergeconv k).
+        - apply sinv_start_converter, sinv_start_tagging, Hs.
+        - apply sinv_starts, Hs. }
+      apply HS. destruct (kf_inflight k).
+      * apply (sinv_update st); [reflexivity|reflexivity|reflexivity|reflexivity| | | | |exact H]; simpl.
+        -- eapply grow_trans; [apply grow_data_tags|apply grow_inherit].
+        -- intros i Hi; rewrite mem_union, Hi; reflexivity.
+        -- auto.
+        -- auto.
+      * apply (sinv_update st); [reflexivity|reflexivity|reflexivity|reflexivity| | | | |exact H]; simpl.
+        -- eapply grow_trans; [apply grow_data_tags|apply grow_inherit].
+        -- intros i Hi; rewrite mem_union, Hi; reflexivity.
+        -- auto.
+        -- auto.
+    + (* merge *) simpl. destruct (jmerge st) as [[off snap [merged|]]|]; try exact H.
+      apply sinv_start_merge. apply (sinv_fields st); [repeat split|exact H].
+  - (* AViewOpen *) simpl. apply (sinv_fields st); [repeat split|exact H].
+  - (* AViewData *) simpl. destruct (find _ (views st)) as [[v0 sv]|]; [|exact H].
+    destruct (cache st c i); [exact H|].
+    destruct (negb (i <? next st) || negb (memN c (convs st))); [exact H|].
+    destruct (kf_viewstore k || (sv i =? ver st i)).
+    + apply (sinv_fields st); [repeat split|exact H].
+    + apply sinv_start_converter. apply (sinv_fields st); [repeat split|exact H].
+  - (* AViewClose *) simpl. apply (sinv_fields st); [repeat split|exact H].
+Qed.
+
 End C06.
